@@ -15,6 +15,7 @@ import (
 	"unsafe"
 
 	"github.com/cep21/circuit/v4"
+	"github.com/cep21/circuit/v4/faststats"
 	"github.com/cep21/circuit/v4/verifsched"
 )
 
@@ -45,6 +46,7 @@ type gaugeInst struct {
 	maxFb    int
 	results  []int64
 	invoked  []bool
+	forwarded *circuit.Config
 }
 
 type gaugeScenario struct{}
@@ -77,10 +79,26 @@ func (g *gaugeInst) cfg(tmo, max, fbmax int64, fbdis bool) circuit.Config {
 	return cfg
 }
 
+// the scenario's close logic never closes anything but is Configurable: SetConfigThreadSafe forwards the new
+// configuration to it, which the model has as a step of the reconfiguration (still under the mutex)
+type fwdCloser struct {
+	circuit.OpenToClosed
+	g *gaugeInst
+}
+
+func (f fwdCloser) SetConfigThreadSafe(c circuit.Config) {
+	verifsched.Mark("Mforward", 0)
+	f.g.forwarded = &c
+}
+func (f fwdCloser) SetConfigNotThreadSafe(circuit.Config) {}
+
 func (g *gaugeInst) Params() interface{} { return g.p }
 
 func (g *gaugeInst) Build(s *verifsched.Sched) []func() {
-	c := circuit.NewCircuitFromConfig("g", g.cfg(g.p.Tmo, g.p.Max, g.p.FbMax, g.p.FbDis))
+	c0 := g.cfg(g.p.Tmo, g.p.Max, g.p.FbMax, g.p.FbDis)
+	never := circuit.NewCircuitFromConfig("never", circuit.Config{}).OpenToClose
+	c0.General.OpenToClosedFactory = func() circuit.OpenToClosed { return fwdCloser{never, g} }
+	c := circuit.NewCircuitFromConfig("g", c0)
 	// NewCircuitFromConfig merges defaults into zero values; set the raw values
 	c.SetConfigThreadSafe(g.cfg(g.p.Tmo, g.p.Max, g.p.FbMax, g.p.FbDis))
 	g.c = c
@@ -94,6 +112,8 @@ func (g *gaugeInst) Build(s *verifsched.Sched) []func() {
 	s.Name(fieldAddr(v, "threadSafeConfig", "Fallback", "MaxConcurrentRequests"), "Lfbmax")
 	s.Name(fieldAddr(v, "threadSafeConfig", "Fallback", "Disabled"), "Lfbdis")
 	s.Name(fieldAddr(v, "threadSafeConfig", "Execution", "ExecutionTimeout"), "Ltimeout")
+	s.Name(fieldAddr(v, "notThreadSafeConfigMu"), "Mcfg")
+	g.forwarded = nil
 	var bodies []func()
 	for i, t := range g.p.Threads {
 		i, t := i, t
@@ -265,6 +285,21 @@ func (g *gaugeInst) Check(s *verifsched.Sched, c *Case) {
 			}
 		}
 	}
+	if !s.Dead && hasSetter {
+		// C11: a reconfiguration is one step for the settings as a whole: at rest the reported configuration, the
+		// live values the calls use and what the Configurable logic was handed all belong to ONE reconfiguration
+		rep := g.c.Config()
+		v := reflect.ValueOf(g.c).Elem()
+		live := func(path ...string) int64 { return (*faststats.AtomicInt64)(fieldAddr(v, path...)).Get() }
+		lt, lm, lf := live("threadSafeConfig", "Execution", "ExecutionTimeout"), live("threadSafeConfig", "Execution", "MaxConcurrentRequests"), live("threadSafeConfig", "Fallback", "MaxConcurrentRequests")
+		if int64(rep.Execution.Timeout) != lt || rep.Execution.MaxConcurrentRequests != lm || rep.Fallback.MaxConcurrentRequests != lf {
+			c.Viol = append(c.Viol, Violation{"C11: each call observes, for every setting, either the old or the new value (reported and effective configuration agree at rest)", fmt.Sprintf("Config() reports timeout %d / limits %d, %d but calls use %d / %d, %d", int64(rep.Execution.Timeout), rep.Execution.MaxConcurrentRequests, rep.Fallback.MaxConcurrentRequests, lt, lm, lf)})
+			c.Viol = append(c.Viol, Violation{"C07: with Execution.Timeout > 0 the run function receives a context whose deadline is call start plus Timeout (the Timeout the circuit reports)", fmt.Sprintf("Config() reports timeout %d but calls use %d", int64(rep.Execution.Timeout), lt)})
+		}
+		if g.forwarded != nil && (g.forwarded.Execution.Timeout != rep.Execution.Timeout || g.forwarded.Execution.MaxConcurrentRequests != rep.Execution.MaxConcurrentRequests) {
+			c.Viol = append(c.Viol, Violation{"C11: each call observes, for every setting, either the old or the new value (the Configurable open/close logic holds the configuration the circuit reports)", fmt.Sprintf("circuit reports timeout %d / limit %d, its close logic was last handed %d / %d", int64(rep.Execution.Timeout), rep.Execution.MaxConcurrentRequests, int64(g.forwarded.Execution.Timeout), g.forwarded.Execution.MaxConcurrentRequests)})
+		}
+	}
 	if !s.Dead && (g.c.ConcurrentCommands() != 0 || g.c.ConcurrentFallbacks() != 0) {
 		c.Viol = append(c.Viol, Violation{"C04: once all calls have returned, by normal return or by panic, ConcurrentCommands and ConcurrentFallbacks read zero", fmt.Sprintf("gauges %d/%d", g.c.ConcurrentCommands(), g.c.ConcurrentFallbacks())})
 	}
@@ -293,6 +328,8 @@ func (gaugeScenario) Corpus() []Instance {
 		&gaugeInst{p: gaugeParams{Tmo: -1, Max: 1, FbMax: 1, Threads: []gThread{{Kind: "caller", Run: "ok", Fb: "none"}, {Kind: "caller", Run: "ok", Fb: "none"}}}},
 		// D9b: limit 5 -> -1 while a caller is between its two (formerly) loads
 		&gaugeInst{p: gaugeParams{Tmo: int64(time.Hour), Max: 5, FbMax: 5, Threads: []gThread{{Kind: "caller", Run: "ok", Fb: "none"}, {Kind: "setter", Tmo: 0, Max: -1, FbMax: -1}}}},
+		// two reconfigurations racing each other and a caller: at rest the settings are those of ONE of them
+		&gaugeInst{p: gaugeParams{Tmo: -1, Max: 5, FbMax: 5, Threads: []gThread{{Kind: "setter", Tmo: int64(time.Hour), Max: 1, FbMax: 1}, {Kind: "setter", Tmo: 0, Max: 2, FbMax: -1, FbDis: true}, {Kind: "caller", Run: "err", Fb: "ok"}}}},
 		// panics release the gauges; fallback limit 0 rejects
 		&gaugeInst{p: gaugeParams{Tmo: -1, Max: 2, FbMax: 0, Threads: []gThread{{Kind: "caller", Run: "panic", Fb: "ok"}, {Kind: "caller", Run: "err", Fb: "ok"}, {Kind: "reader"}}}},
 		&gaugeInst{p: gaugeParams{Tmo: 0, Max: 0, FbMax: 1, Threads: []gThread{{Kind: "caller", Run: "ok", Fb: "panic"}, {Kind: "caller", Run: "ok", Fb: "err"}}}},
